@@ -18,7 +18,17 @@ import (
 )
 
 // value catalogue for property fidelity: what JSON can carry and a graph database typically holds
+// catalogue: every entity carries two of the eight value groups (i and i+4), so that three nodes and two relationships
+// already cover all of them.
 func catalogue(i int, id int) map[string]any {
+	base := catalogueOne(i, id)
+	for k, v := range catalogueOne(i+4, id) {
+		base[k] = v
+	}
+	return base
+}
+
+func catalogueOne(i int, id int) map[string]any {
 	base := map[string]any{"v": id}
 	switch i % 8 {
 	case 0:
@@ -43,6 +53,8 @@ func catalogue(i int, id int) map[string]any {
 	case 7:
 		base["f2"] = 1e21
 		base["zero"] = 0
+		base["negbig"] = -3e19
+		base["wholes"] = []any{1e20, 2.0, map[string]any{"w": 9.3e18}}
 	}
 	return base
 }
